@@ -40,15 +40,57 @@ def mc(ctx, T, sfx):
         ctx.broken("MC_CarryOver: expected a NoCarryOver counterexample, got %s" % co.violated)
 
 
+def blocks(ctx):
+    # the real protocols' durations
+    go2 = ctx.gotest("pkg/beacon/gjkr", "^TestVerif_C14_GjkrBlocks$", ["c14_blocks_test.go"], label="gjkr_blocks")
+    go3 = ctx.gotest("pkg/beacon/dkg/result", "^TestVerif_C14_ResultBlocks$", ["c14_blocks_test.go"], label="result_blocks")
+    return go2, go3
+
+
+class Bg:
+    """Run an independent step of the check on its own thread (TLC model runs and
+    the block-sum tests do not depend on the replay pipeline)."""
+    def __init__(self, fn, *a):
+        import threading
+        self.res, self.exc = None, None
+
+        def body():
+            try:
+                self.res = fn(*a)
+            except BaseException as ex:  # re-raised by join()
+                self.exc = ex
+        self.t = threading.Thread(target=body, daemon=True)
+        self.t.start()
+
+    def join(self):
+        self.t.join()
+        if self.exc is not None:
+            raise self.exc
+        return self.res
+
+
 def run(ctx):
-    import random
+    import random, threading
     T = ctx.thorough
     sfx = "_T" if T else ""
-    import os
-    DEV = bool(os.environ.get("C14_DEV"))
-    # 1. the model satisfies the property (exhaustive, bounded)
-    if not DEV:
-      mc(ctx, T, sfx)
+    # scratch sub-directories are numbered by ctx: serialize the numbering between threads
+    lock, orig = threading.Lock(), ctx.subdir
+
+    def subdir(name):
+        with lock:
+            return orig(name)
+    ctx.subdir = subdir
+    # 1./2. the model satisfies the property (exhaustive, bounded) -- in the background
+    bg_mc = Bg(mc, ctx, T, sfx)
+    bg_blocks = Bg(blocks, ctx)
+    try:
+        return pipeline(ctx, T, bg_mc, bg_blocks)
+    finally:
+        ctx.subdir = orig
+
+
+def pipeline(ctx, T, bg_mc, bg_blocks):
+    import random
     # 3. behaviours for replay
     rnd = random.Random(ctx.seed)
     beh = []
@@ -112,11 +154,11 @@ def run(ctx):
                       "a recorded run of the real SyncMachine is not a behaviour of the specification (%s; line %s: %s)" % (
                           ("invariant %s violated" % inv) if inv else "event rejected", hw, bad),
                       {"trace_tail": lines[max(0, (hw or 1) - 25):(hw or 1) + 2], "tlc": tr.out[-2500:]})
-    # 6. the real protocols' durations
-    go2 = ctx.gotest("pkg/beacon/gjkr", "^TestVerif_C14_GjkrBlocks$", ["c14_blocks_test.go"], label="gjkr_blocks")
+    # 6. join the background steps
+    go2, go3 = bg_blocks.join()
     ctx.absorb(go2)
-    go3 = ctx.gotest("pkg/beacon/dkg/result", "^TestVerif_C14_ResultBlocks$", ["c14_blocks_test.go"], label="result_blocks")
     ctx.absorb(go3)
+    bg_mc.join()
     return ctx.finish(
         level="model_checking",
         rule="TLC: every protocol configuration and every interleaving within the bounds of MC_*.cfg. Replay: TLC-simulated "
